@@ -73,6 +73,8 @@ func main() {
 		os.Exit(ledgerCmd(opts, fs.Args()))
 	case "list":
 		listCmd(opts)
+	case "schemas":
+		os.Exit(schemasCmd(opts))
 	default:
 		fmt.Fprintln(os.Stderr, "unknown command", cmd)
 		os.Exit(2)
@@ -126,6 +128,9 @@ type Run struct {
 	GenS    float64
 	SolveS  float64
 	TmpDir  string
+	ExtraNotes  []string
+	Bounded     []BoundedResult
+	SchemaCount int
 }
 
 func hasProp(c *Contract, prop string) bool {
@@ -208,6 +213,25 @@ func verifyRun(opts *RunOpts) (*Run, error) {
 			run.Results = append(run.Results, &FuncResult{Name: shortName(k), Key: k, OutOfSubset: "contract not loaded (package missing?)"})
 		}
 	}
+	if opts.Prop == "C19" {
+		d, notes, err := extractSchemas(opts)
+		if err != nil {
+			return nil, err
+		}
+		run.ExtraNotes = append(run.ExtraNotes, notes...)
+		gr, bg := w.groundResults(opts, d)
+		run.Results = append(run.Results, gr...)
+		run.SchemaCount = len(d.Schemas)
+		bound := 400
+		if opts.Tier == "thorough" {
+			bound = 20000
+		}
+		br, err := runBoundedGroups(opts, bg, bound)
+		if err != nil {
+			run.ExtraNotes = append(run.ExtraNotes, "bounded stand-in did not run: "+err.Error())
+		}
+		run.Bounded = br
+	}
 	run.GenS = time.Since(t1).Seconds()
 	t2 := time.Now()
 	if err := run.solve(); err != nil {
@@ -238,6 +262,9 @@ func (r *Run) solve() error {
 		for _, o := range res.Obls {
 			o := o
 			res := res
+			if o.Decided {
+				continue
+			}
 			wg.Add(1)
 			go func() {
 				defer wg.Done()
@@ -304,7 +331,7 @@ func applyResult(o *Obl, sr SolverResult) {
 // but that did not discharge in the first pass, with a longer timeout and
 // little contention, before anything is reported.
 func (r *Run) retry(names map[string]bool, timeoutS int) {
-	sem := make(chan struct{}, 6)
+	sem := make(chan struct{}, 14)
 	var wg sync.WaitGroup
 	for _, res := range r.Results {
 		for _, o := range res.Obls {
